@@ -83,6 +83,8 @@ type Stmt struct {
 }
 
 const (
+	aggBase     = 10 // ag0, ag1: user-defined aggregates are the functions aggBase+k of the model
+	poolAggs    = 2
 	poolCursors = 2 // cr0, cr1: cursors with state (closed / open at a position); in the model the variable cursorVar+k
 	cursorVar   = 200
 	poolTables  = 2 // t0, t1: temporary tables; in the model the variable tableVar+k holding the number of rows
@@ -96,7 +98,12 @@ const (
 )
 
 func vname(x int) string { return "@v" + strconv.Itoa(x) }
-func fname(f int) string { return "fn" + strconv.Itoa(f) }
+func fname(f int) string {
+	if f >= aggBase { // user-defined aggregates: their own names, the same map of functions
+		return "ag" + strconv.Itoa(f-aggBase)
+	}
+	return "fn" + strconv.Itoa(f)
+}
 func tname(t int) string { return "t" + strconv.Itoa(t) }
 func cname(c int) string { return "cr" + strconv.Itoa(c) }
 
@@ -120,6 +127,11 @@ func (e *Expr) enc(b *strings.Builder) {
 		e.B.enc(b)
 	case 'c':
 		fmt.Fprintf(b, " c%d %d", e.X, len(e.Args))
+		for _, a := range e.Args {
+			a.enc(b)
+		}
+	case 'a':
+		fmt.Fprintf(b, " a%d %d %d", e.X, e.N, len(e.Args))
 		for _, a := range e.Args {
 			a.enc(b)
 		}
@@ -147,8 +159,16 @@ func (s *Stmt) enc(b *strings.Builder) {
 		s.E.enc(b)
 	case 'B', 'K', 'Q':
 		fmt.Fprintf(b, " %c", s.K)
+	case 'M':
+		fmt.Fprintf(b, " M%d", s.X)
 	case 'I':
-		fmt.Fprintf(b, " I %d", len(s.Branches))
+		if s.E != nil { // CASE <value> WHEN …
+			b.WriteString(" J")
+			s.E.enc(b)
+			fmt.Fprintf(b, " %d", len(s.Branches))
+		} else {
+			fmt.Fprintf(b, " I %d", len(s.Branches))
+		}
 		for _, br := range s.Branches {
 			br.C.enc(b)
 			encBlock(b, br.Body)
@@ -159,7 +179,7 @@ func (s *Stmt) enc(b *strings.Builder) {
 		s.E.enc(b)
 		encBlock(b, s.Body)
 	case 'C':
-		fmt.Fprintf(b, " D%d i%d", cursorVar+s.Cur, -10*s.Rows-1)
+		fmt.Fprintf(b, " D%d i%d", cursorVar+s.Cur, -(100*s.Rows+30)-1)
 	case 'O', 'S':
 		fmt.Fprintf(b, " %c%d", s.K, cursorVar+s.Cur)
 	case 'H':
@@ -183,6 +203,17 @@ func (s *Stmt) enc(b *strings.Builder) {
 		fmt.Fprintf(b, " E%d %d %d", s.X, d, s.Rows)
 		for i := 0; i < s.Rows; i++ {
 			fmt.Fprintf(b, " i%d", i)
+		}
+		encBlock(b, s.Body)
+	case 'G':
+		fmt.Fprintf(b, " G%d %d %d", s.X, cursorVar+s.Cur, len(s.Params))
+		for _, p := range s.Params {
+			if p.Dflt == nil {
+				fmt.Fprintf(b, " p%d", p.X)
+			} else {
+				fmt.Fprintf(b, " q%d", p.X)
+				p.Dflt.enc(b)
+			}
 		}
 		encBlock(b, s.Body)
 	case 'F':
@@ -243,6 +274,13 @@ func (e *Expr) sql(b *strings.Builder) {
 			a.sql(b)
 		}
 		b.WriteByte(')')
+	case 'a': // the aggregate inside a query over a group: the rows N, N+1, … (as many as N encodes, maybe none)
+		fmt.Fprintf(b, "(SELECT %s((c1 + %d)", fname(e.X), e.N)
+		for _, a := range e.Args {
+			b.WriteString(", ")
+			a.sql(b)
+		}
+		fmt.Fprintf(b, ") FROM tq WHERE c1 < %d)", (e.N/10)%10)
 	}
 }
 
@@ -290,9 +328,19 @@ func (s *Stmt) sql(b *strings.Builder) {
 		default:
 			b.WriteString("EXIT;")
 		}
+	case 'M':
+		if s.X == 1 {
+			b.WriteString("EXIT 1;")
+		} else {
+			b.WriteString("TRIGGER ERROR;")
+		}
 	case 'I':
-		if s.AsCase {
+		if s.AsCase || s.E != nil {
 			b.WriteString("CASE ")
+			if s.E != nil {
+				s.E.sql(b)
+				b.WriteByte(' ')
+			}
 			for _, br := range s.Branches {
 				b.WriteString("WHEN ")
 				br.C.sql(b)
@@ -328,7 +376,7 @@ func (s *Stmt) sql(b *strings.Builder) {
 		sqlBlock(b, s.Body)
 		b.WriteString("END WHILE;")
 	case 'C':
-		fmt.Fprintf(b, "DECLARE %s CURSOR FOR SELECT (c1 + %d) FROM tq WHERE c1 < 3 ORDER BY c1;", cname(s.Cur), 10*s.Rows)
+		fmt.Fprintf(b, "DECLARE %s CURSOR FOR SELECT (c1 + %d) FROM tq WHERE c1 < 3 ORDER BY c1;", cname(s.Cur), 100*s.Rows+30)
 	case 'O':
 		b.WriteString("OPEN " + cname(s.Cur) + ";")
 	case 'S':
@@ -369,6 +417,18 @@ func (s *Stmt) sql(b *strings.Builder) {
 		fmt.Fprintf(b, "%s IN cq%d DO ", vname(s.X), s.Cur)
 		sqlBlock(b, s.Body)
 		b.WriteString("END WHILE;")
+	case 'G':
+		b.WriteString("DECLARE " + fname(s.X) + " AGGREGATE (" + cname(s.Cur))
+		for _, p := range s.Params {
+			b.WriteString(", " + vname(p.X))
+			if p.Dflt != nil {
+				b.WriteString(" DEFAULT ")
+				p.Dflt.sql(b)
+			}
+		}
+		b.WriteString(") AS BEGIN ")
+		sqlBlock(b, s.Body)
+		b.WriteString("END;")
 	case 'F':
 		b.WriteString("DECLARE " + fname(s.X) + " FUNCTION (")
 		for i, p := range s.Params {
@@ -434,11 +494,13 @@ func flat(ss []*Stmt) []*Stmt {
 // so inside a function body this is a guess: the declaration site plus the parameters); most references
 // use visible names so that programs run on, a few do not so that every error kind occurs.
 type genCtx struct {
-	depth     int
-	inLoop    bool
-	inFunc    bool
-	noDisp    bool           // law programs: no DISPOSE
-	wild      bool           // BREAK / CONTINUE / EXIT / RETURN anywhere, also where the grammar forbids them
+	depth   int
+	inLoop  bool
+	inFunc  bool
+	noDisp  bool // law programs: no DISPOSE
+	wild    bool // BREAK / CONTINUE / EXIT / RETURN anywhere, also where the grammar forbids them
+	inQuery bool // inside the argument list of an aggregate evaluated in a query: a plain call of an aggregate there
+	// would aggregate over the group of THAT query, so aggregates are only called through their own sub-query
 	noRet     bool           // inside SOURCE / EXECUTE text: parsed as a procedure of its own, RETURN is no statement there
 	visible   map[int]bool   // pool variables probably visible here
 	declared  map[int]bool   // pool variables declared in the block being generated
@@ -554,12 +616,28 @@ func (p *pgen) call(c genCtx, d int) *Expr {
 			n += p.g.Intn(ar[1] - ar[0] + 1)
 		}
 	}
+	inQuery := f >= aggBase && (c.inQuery || p.g.Intn(5) < 3)
+	ac := c
+	if inQuery {
+		ac.inQuery = true
+	}
 	args := []*Expr{first}
 	for i := 0; i < n; i++ {
-		args = append(args, p.expr(c, d+1, p.g.Intn(4) == 0))
+		args = append(args, p.expr(ac, d+1, p.g.Intn(4) == 0))
 	}
 	if p.g.Intn(60) == 0 {
 		args = args[:0] // no budget argument at all: argument count error
+	}
+	if f >= aggBase {
+		if inQuery {
+			// inside a query, over a group of 0 … 4 values (the state of the invocation's pseudo cursor at its start)
+			p.cursorSeq++
+			return &Expr{K: 'a', X: f, N: int64(1000 + 100*(p.cursorSeq%10) + 10*p.g.Intn(5)), Args: args}
+		}
+		// outside any query: the first argument stands where the grouped expression would, there is nothing to aggregate
+		if len(args) > 0 || p.g.Intn(2) == 0 {
+			args = append([]*Expr{lit(0)}, args...)
+		}
 	}
 	return &Expr{K: 'c', X: f, Args: args}
 }
@@ -739,8 +817,19 @@ func (p *pgen) stmt(c genCtx) []*Stmt {
 			nb = 1
 		}
 		s := &Stmt{K: 'I', AsCase: p.g.Intn(3) == 0}
+		if p.g.Intn(6) == 0 { // CASE <value> WHEN <value> THEN … (Processor.Case with a value)
+			s.E = p.expr(c, 1, true)
+			nb = 1 + p.g.Intn(3)
+			p.kinds['J']++
+		}
 		for i := 0; i < nb; i++ {
 			cc := p.cond(c)
+			if s.E != nil {
+				cc = p.expr(c, 1, true)
+				if p.g.Intn(3) == 0 {
+					cc = s.E // the same expression again: mostly equal (unless it is NULL or has effects)
+				}
+			}
 			s.Branches = append(s.Branches, Branch{C: cc, Body: p.block(c.child(), 0, 3)})
 		}
 		if p.g.Intn(2) == 0 {
@@ -777,6 +866,50 @@ func (p *pgen) stmt(c genCtx) []*Stmt {
 		body = append(body, p.block(cc, 1, 3)...)
 		p.note('W', c)
 		return []*Stmt{{K: 'D', X: k, E: lit(0)}, {K: 'W', E: bin('<', vr(k), lit(lim)), Body: body}}
+	case r < 77:
+		// DECLARE ag AGGREGATE (cursor, @v4, …): every invocation gets its own pseudo cursor of that name — often the
+		// name of a cursor that is declared (and open) outside
+		f := aggBase + p.g.Intn(poolAggs)
+		for t := 0; t < 3 && c.fdeclared[f] && p.g.Intn(100) < 85; t++ {
+			f = aggBase + p.g.Intn(poolAggs)
+		}
+		cur := p.g.Intn(poolCursors)
+		if vis := sortedKeys(c.cvisible); len(vis) > 0 && p.g.Intn(4) > 0 {
+			cur = vis[p.g.Intn(len(vis))]
+		}
+		s := &Stmt{K: 'G', X: f, Cur: cur, Params: []Param{{X: budgetVar}}}
+		cc := c.child()
+		cc.inFunc, cc.inLoop, cc.noRet = true, false, false
+		cc.cvisible[cur], cc.cdeclared[cur] = true, true
+		if p.g.Intn(2) == 0 {
+			x := p.g.Intn(poolVars)
+			pr := Param{X: x}
+			if p.g.Intn(2) == 0 {
+				pr.Dflt = p.expr(cc, 1, false)
+			}
+			s.Params = append(s.Params, pr)
+			cc.visible[x], cc.declared[x] = true, true
+		}
+		total, required := len(s.Params)-1, 0
+		for i, pr := range s.Params[1:] {
+			if pr.Dflt == nil {
+				required = i + 1
+			}
+		}
+		cc.fns[f] = [2]int{required, total}
+		guard := &Stmt{K: 'I', Branches: []Branch{{C: bin('<', vr(budgetVar), lit(1)),
+			Body: []*Stmt{{K: 'R', E: p.expr(cc, 1, false)}}}}}
+		x := p.pickVar(cc)
+		s.Body = []*Stmt{guard, {K: 'H', Cur: cur, X: x}}
+		if p.g.Intn(2) == 0 {
+			s.Body = append(s.Body, &Stmt{K: 'H', Cur: cur, X: p.pickVar(cc)})
+		}
+		s.Body = append(s.Body, p.block(cc, 1, 3)...)
+		c.fns[f] = [2]int{required, total}
+		c.fdeclared[f] = true
+		p.fns = append(p.fns, s)
+		p.note('G', c)
+		return []*Stmt{s}
 	case r < 84:
 		f := p.g.Intn(poolFns)
 		for t := 0; t < 4 && c.fdeclared[f] && p.g.Intn(100) < 85; t++ {
@@ -825,6 +958,14 @@ func (p *pgen) stmt(c genCtx) []*Stmt {
 		p.note('F', c)
 		return []*Stmt{s}
 	case r < 86:
+		if p.g.Intn(8) == 0 && c.depth > 0 { // the procedure ends with an error: TRIGGER ERROR anywhere, EXIT 1 where EXIT may stand
+			st := &Stmt{K: 'M', X: 0}
+			if !c.inFunc && p.g.Intn(2) == 0 {
+				st.X = 1
+			}
+			p.note('M', c)
+			return []*Stmt{st}
+		}
 		if c.noDisp || len(c.fns) == 0 || p.g.Intn(2) == 0 {
 			break
 		}
@@ -891,7 +1032,7 @@ func costExpr(e *Expr, cc int64) int64 {
 	switch e.K {
 	case '+', '-', '<', '=':
 		return sat(1 + costExpr(e.A, cc) + costExpr(e.B, cc))
-	case 'c':
+	case 'c', 'a':
 		t := int64(1) + cc
 		for _, a := range e.Args {
 			t = sat(t + costExpr(a, cc))
@@ -917,7 +1058,7 @@ func costBlock(ss []*Stmt, cc int64) int64 {
 			t = sat(t + 3 + int64(s.Rows)*sat(1+costBlock(s.Body, cc)))
 		case 'Z':
 			t = sat(t + costBlock(s.Body, cc))
-		case 'F':
+		case 'F', 'G':
 			for _, pr := range s.Params {
 				t = sat(t + costExpr(pr.Dflt, cc))
 			}
@@ -1074,6 +1215,9 @@ func scopeState(rs *query.ReferenceScope) (string, string) {
 		l = nil
 		b.Functions.Range(func(key, val interface{}) bool {
 			k := idxOf(key.(string), "fn")
+			if a := idxOf(key.(string), "ag"); a < poolAggs {
+				k = aggBase + a
+			}
 			l = append(l, kv{k, fmt.Sprintf("%d:%d", k, len(val.(*query.UserDefinedFunction).Parameters))})
 			return true
 		})
@@ -1166,6 +1310,11 @@ func patch(my []*Stmt, parsed []parser.Statement) bool {
 			}
 		case 'F':
 			n, ok := parsed[i].(parser.FunctionDeclaration)
+			if !ok || !patch(s.Body, n.Statements) {
+				return false
+			}
+		case 'G':
+			n, ok := parsed[i].(parser.AggregateDeclaration)
 			if !ok || !patch(s.Body, n.Statements) {
 				return false
 			}
@@ -1583,6 +1732,46 @@ func lawFileShadow(g *hc.Gen, o *hc.Out, base string) {
 	}
 }
 
+// lawAggregateCursor: every invocation of a user-defined aggregate has a pseudo cursor of its own — also with NOTHING
+// to aggregate (empty selection, a call outside any query, a call from another function's body, inside another
+// aggregate with the same cursor name) — and an open cursor of that name outside is neither read nor moved.
+func lawAggregateCursor(g *hc.Gen, o *hc.Out) {
+	id := 0
+	decl := "DECLARE cnt AGGREGATE (list) AS BEGIN VAR @n := 0; VAR @v; WHILE @v IN list DO @n := (@n + 1); END WHILE; RETURN @n; END; " +
+		"DECLARE outerfn FUNCTION () AS BEGIN RETURN cnt(1); END; " +
+		"DECLARE nest AGGREGATE (list) AS BEGIN VAR @w; FETCH list INTO @w; RETURN ((cnt(1) * 100) + @w); END; " +
+		"DECLARE tz VIEW (c1); INSERT INTO tz VALUES (1), (2), (3); VAR @r; VAR @x; "
+	type cse struct{ name, use, want string }
+	cases := []cse{
+		{"empty_selection", "SELECT cnt(c1) INTO @r FROM tz WHERE c1 > 100; PRINT @r;", "I0"},
+		{"outside_query", "PRINT cnt(1);", "I0"},
+		{"from_function_body", "PRINT outerfn();", "I0"},
+		{"full_selection", "SELECT cnt(c1) INTO @r FROM tz; PRINT @r;", "I3"},
+		{"inside_aggregate_of_same_cursor_name", "SELECT nest(c1) INTO @r FROM tz; PRINT @r;", "I1"},
+		{"empty_group_in_subquery", "PRINT (SELECT cnt(c1) FROM tz WHERE c1 < 0);", "I0"},
+	}
+	cs := cases[g.Intn(len(cases))]
+	withOuter := g.Intn(3) > 0
+	outer, tail, wantTail := "", "", ""
+	if withOuter {
+		outer = "DECLARE list CURSOR FOR SELECT c1 FROM tz ORDER BY c1; OPEN list; "
+		tail = " FETCH list INTO @x; PRINT @x;"
+		wantTail = ",I1"
+	}
+	body, kinds := wrap(g, indirect(g, o, cs.use, &id), g.Intn(3), &id)
+	sql := decl + outer + body + tail
+	pr := newProc()
+	r := exec(pr, sql)
+	pr.Close()
+	o.Count("law:aggregate_cursor_" + cs.name)
+	if len(kinds) > 0 {
+		o.Count("law_wrap_innermost:" + kinds[0])
+	}
+	if got := r.flow + " " + joinOr(r.out, "-"); got != "N "+cs.want+wantTail {
+		report(o, "aggregate_call_declares_own_cursor_"+cs.name, lawCase{"aggregate_call_declares_own_cursor_" + cs.name, []string{sql}, got, "N " + cs.want + wantTail})
+	}
+}
+
 func globalVar(pr *hc.Proc, x int) string {
 	v, err := pr.P.ReferenceScope.GetVariable(parser.Variable{Name: "v" + strconv.Itoa(x)})
 	if err != nil {
@@ -1600,7 +1789,7 @@ func lawShadowRandom(g *hc.Gen, o *hc.Out, pr *hc.Proc) {
 	x := g.Intn(poolVars)
 	c.declared[x], c.visible[x] = true, true
 	for _, s := range pre { // functions of the prefix are callable from the body
-		if s.K == 'F' {
+		if s.K == 'F' || s.K == 'G' {
 			total, required := len(s.Params)-1, 0
 			for i, pr := range s.Params[1:] {
 				if pr.Dflt == nil {
@@ -1661,7 +1850,7 @@ func lawLateDecl(g *hc.Gen, o *hc.Out, pr *hc.Proc, prog []*Stmt, base result) {
 				sites = append(sites, site{&s.Els, nil})
 				walk(s.Els)
 			}
-			if s.K == 'W' || s.K == 'F' || s.K == 'E' {
+			if s.K == 'W' || s.K == 'F' || s.K == 'E' || s.K == 'G' {
 				ps := s.Params
 				if s.K == 'E' && s.Decl { // WHILE VAR @x IN …: @x lives in the block of the body
 					ps = []Param{{X: s.X}}
@@ -1743,6 +1932,65 @@ func lawConcurrent(g *hc.Gen, o *hc.Out) {
 	if bad > 0 || view.RecordLen() != n {
 		report(o, "call_frames_independent_concurrent", lawCase{"call_frames_independent_concurrent", []string{setup, "SELECT c1, fz(c1) FROM tz"},
 			fmt.Sprintf("%d of %d rows wrong", bad, view.RecordLen()), "every row k*c1"})
+	}
+}
+
+// lawConcurrentOwnArgs: user-defined functions and aggregates invoked CONCURRENTLY (--cpu 4, several hundred rows /
+// partitions) with arguments that differ from row to row: every invocation answers for ITS OWN arguments.  The
+// bodies hand a parameter back (after some work in their own locals), so the expected value of a row is known.
+func lawConcurrentOwnArgs(g *hc.Gen, o *hc.Out) {
+	pr := newProc()
+	defer pr.Close()
+	_ = pr.P.Tx.SetFlag(option.CPUFlag, int64(4))
+	n := 500 + g.Intn(300)
+	var vals []string
+	for i := 1; i <= n; i++ {
+		vals = append(vals, fmt.Sprintf("(%d, %d)", i, i%7))
+	}
+	setup := "DECLARE tz VIEW (c1, c2); INSERT INTO tz VALUES " + strings.Join(vals, ", ") + ";" +
+		" DECLARE idf FUNCTION (@p, @q DEFAULT 0) AS BEGIN VAR @i := 0; VAR @l := @p; WHILE (@i < 3) DO @i := (@i + 1); VAR @t := @l; @l := @t; END WHILE; RETURN (@l + @q); END;" +
+		" DECLARE pick AGGREGATE (list, @a, @b DEFAULT 0) AS BEGIN VAR @n := 0; VAR @v; WHILE @v IN list DO @n := (@n + 1); END WHILE; VAR @keep := @a; RETURN (@keep + @b); END;" +
+		" DECLARE cnt AGGREGATE (list, @a) AS BEGIN VAR @n := 0; VAR @v; WHILE @v IN list DO @n := (@n + 1); END WHILE; RETURN ((@n * 1000000) + @a); END;"
+	r := exec(pr, setup)
+	if r.code != 0 {
+		report(o, "call_frames_independent_concurrent", lawCase{"call_frames_independent_concurrent", []string{setup}, r.flow, "setup runs"})
+		return
+	}
+	type form struct{ name, sql string }
+	forms := []form{
+		{"analytic_aggregate", "SELECT c1, pick(c2, c1, 3) OVER (PARTITION BY c1) - 3 FROM tz"},
+		{"analytic_aggregate_two_args", "SELECT c1, pick(c2, 1, c1) OVER (PARTITION BY c1) - 1 FROM tz"},
+		{"analytic_aggregate_counting", "SELECT c1, cnt(c2, c1) OVER (PARTITION BY c1) - 1000000 FROM tz"},
+		{"select_list", "SELECT c1, idf(c1) FROM tz"},
+		{"select_list_two_args", "SELECT c1, idf(1, c1) - 1 FROM tz"},
+		{"where", "SELECT c1, c1 FROM tz WHERE idf(c1) = c1 AND idf(c1, c1) = c1 * 2"},
+		{"subquery_per_record", "SELECT c1, (SELECT idf(tz.c1)) FROM tz"},
+		{"group_aggregate", "SELECT c1, pick(c2, c1) FROM tz GROUP BY c1"},
+		{"nested_in_function", "SELECT c1, idf(idf(c1), idf(0)) FROM tz"},
+	}
+	for _, f := range forms {
+		o.Count("law:concurrent_" + f.name)
+		view, err := pr.Query(f.sql)
+		if err != nil {
+			report(o, "call_frames_independent_concurrent_"+f.name, lawCase{"call_frames_independent_concurrent_" + f.name, []string{setup[:200] + " …", f.sql}, err.Error(), "no error"})
+			continue
+		}
+		bad, first := 0, ""
+		for i := 0; i < view.RecordLen(); i++ {
+			a := value.ToIntegerStrictly(view.RecordSet[i][0][0])
+			b := value.ToIntegerStrictly(view.RecordSet[i][1][0])
+			if value.IsNull(a) || value.IsNull(b) || b.(*value.Integer).Raw() != a.(*value.Integer).Raw() {
+				bad++
+				if first == "" {
+					first = fmt.Sprintf("row c1=%s got %s", view.RecordSet[i][0][0].String(), view.RecordSet[i][1][0].String())
+				}
+			}
+		}
+		if bad > 0 || view.RecordLen() != n {
+			report(o, "call_frames_independent_concurrent_"+f.name, lawCase{"call_frames_independent_concurrent_" + f.name,
+				[]string{fmt.Sprintf("-- --cpu 4; tz (c1, c2) with the rows (i, i %% 7), i = 1..%d; ", n) + setup[strings.Index(setup, " DECLARE idf"):], f.sql},
+				fmt.Sprintf("%d of %d rows wrong (%s)", bad, view.RecordLen(), first), fmt.Sprintf("%d rows, the second column equal to c1: every invocation answers for its own arguments", n)})
+		}
 	}
 }
 
@@ -1899,6 +2147,7 @@ func runC15(seed int64, n int, dir string, _ []string) {
 	shared.P.Tx.AutoCommit = true
 	defer shared.Close()
 	lawConcurrent(g, o)
+	lawConcurrentOwnArgs(g, o)
 	for i := 0; i < n; i++ {
 		wild := i%5 == 4
 		pg, prog := genProgram(g, false, wild)
@@ -1987,6 +2236,12 @@ func runC15(seed int64, n int, dir string, _ []string) {
 		}
 		if i%16 == 6 {
 			lawFileShadow(g, o, base)
+		}
+		if i%16 == 14 {
+			lawAggregateCursor(g, o)
+		}
+		if i%4000 == 1999 {
+			lawConcurrentOwnArgs(g, o)
 		}
 
 	}
